@@ -42,7 +42,13 @@ def _temporal_untouched(J, cell, law, V, W_, det):
     """t / tau stored coordinate of the result is the operand's, bit for bit, same type"""
     if not hasattr(V, "temporal"):
         return
-    ok = hasattr(W_, "temporal") and type(W_.temporal) is type(V.temporal)
+    try:
+        wt = W_.temporal
+    except Exception as e:  # e.g. an Awkward "4D" result that lost its temporal field
+        J.exact("time/proper time untouched bit-for-bit: " + law, cell, False,
+                {**det, "operand_temporal": repr(V.temporal), "result_temporal": f"{type(e).__name__}: {e}"[:160]})
+        return
+    ok = type(wt) is type(V.temporal)
     if ok and isinstance(V.temporal, tuple):
         a, b = tuple.__getitem__(V.temporal, 0), tuple.__getitem__(W_.temporal, 0)
         ok = (a is b) or (B.bits(a) == B.bits(b))
@@ -50,7 +56,7 @@ def _temporal_untouched(J, cell, law, V, W_, det):
         (_, sv, cv, _, _), (_, sw, cw, _, _) = B.stored_columns(V), B.stored_columns(W_)
         ok = sv[-1] == sw[-1] and [B.bits(float(x)) for x in cv[-1]] == [B.bits(float(x)) for x in cw[-1]]
     J.exact("time/proper time untouched bit-for-bit: " + law, cell, ok,
-            {**det, "operand_temporal": repr(V.temporal), "result_temporal": repr(getattr(W_, "temporal", None))})
+            {**det, "operand_temporal": repr(V.temporal), "result_temporal": repr(wt)})
 
 
 def run_shard(spec, tier, seed):
